@@ -4,10 +4,10 @@ import json, glob, os, re
 rows=[json.load(open(os.path.join(d,'meta.json'))) for d in sorted(glob.glob('/verif/seeded/C*-*'))]
 def esc(s): return s.replace('|','\\|')
 table="\n".join(f"| {m['id']} | {esc(m['change'])} | {esc(m['needs_to_manifest'])} | {', '.join(f'{k}: {v}' for k,v in m['verdicts'].items())} |" for m in rows)
-caught=sum(1 for m in rows if all(v=='caught' for v in m['verdicts'].values()))
+caught=sum(1 for m in rows if m['verdicts'].get(m['property'])=='caught' and not any(v in ('missed-then-caught','not-judged') for v in m['verdicts'].values()))
 mtc=[m for m in rows if any(v=='missed-then-caught' for v in m['verdicts'].values())]
 nj=[m for m in rows if any(v=='not-judged' for v in m['verdicts'].values())]
-other=[m for m in rows if 'missed' in m['verdicts'].values() and m not in mtc]
+other=[m for m in rows if m['verdicts'].get(m['property'])=='missed' and m not in mtc]
 stren="\n".join(f"* **{m['id']}** ({m['property']}) - {m['strengthening']}" for m in rows if m.get('strengthening'))
 p='/verif/DESIGN.md'
 s=open(p).read()
@@ -15,7 +15,7 @@ start=s.index('## 9. Independently seeded changes')
 end=s.index('## 10. As built')
 sec=f'''## 9. Independently seeded changes: which check catches which
 
-{len(rows)} changes were written by fresh sub-agents in four rounds (one agent per property and
+{len(rows)} changes were written by fresh sub-agents in five rounds (one agent per property and
 round), each given only the text of its property, a scratch worktree of `/repo` and - from the
 second round on - one-line descriptions of the changes earlier agents had already delivered for
 that property (nothing from `/verif`). Every change kept here was confirmed by `seeded/confirm.sh`
@@ -25,7 +25,7 @@ passes without it) and then run against the checks with
 `mutants/try.sh seeded/<id>/patch.diff <checks>` (apply to `/repo`, `./check <ID> quick`, revert).
 `seeded/<id>/` holds `patch.diff`, `demo.rs`, `notes.md`, `confirm.log` and `meta.json`.
 
-Outcome: {caught} caught by the quick tier of every check they were run against; {len(mtc)}
+Outcome: {caught} caught by the quick tier of the check of their own property (further checks run against a change are listed too; a `missed` there means that check's statement does not cover the behaviour); {len(mtc)}
 missed at first by the check of their own property and caught after the strengthening listed
 below (no check was weakened, workloads and oracles were widened); {len(nj)} not judged by design
 ({', '.join(m['id'] for m in nj)}: inside a documented gray zone); {len(other)} outside the statement
@@ -33,7 +33,7 @@ of the property its author was given and caught by the check of the property tha
 ({', '.join(m['id'] for m in other)}, see its note). For round 3 the `missed-then-caught` verdicts were
 established by running the checks as they stood before the round (commit 1635b1a, built in a scratch
 worktree) and the current checks against the same patch: 12 of the 24 round-3 changes were missed by the
-earlier checks and all are caught now. Round 4 (14 changes) was first run against the checks exactly as they stood (8 missed), then against the strengthened checks (all caught); those runs used scratch copies of /verif and /repo (`REPO=` and the path dependency redirected) because a background thorough run was reading /repo. Where an agent's final summary
+earlier checks and all are caught now. Round 4 (14 changes) was first run against the checks exactly as they stood (8 missed), then against the strengthened checks (all caught); those runs used scratch copies of /verif and /repo (`REPO=` and the path dependency redirected) because a background thorough run was reading /repo. Round 5 (38 changes, all 19 properties, prompts steering towards interactions, boundary values, rarely used entry points and error paths) went the same way: 21 were missed by the check of their own property at first: 4 of those are caught by the check of the property that owns the behaviour (no change made), 16 led to strengthening and are caught now, 1 (C13-7) is not judged. Where an agent's final summary
 gave me the idea before I ran its patch, and I widened the workload first, the `strengthening`
 note of that row says so. One further delivered change (TextReader staging buffer re-served after
 a failed refill) was made moot by `fix:` #14 of section 5, which it led to, and is not kept.
